@@ -62,6 +62,9 @@ def plan(prop: str, tier: str) -> Plan:
     return Plan(shards=16, cases_per_shard=700, timeout_s=3300)
 
 
+KLINE_INTERVALS = {"kline": "1m", "klineM": "1M", "klineH": "1h"}
+
+
 def sweep_space() -> List[tuple]:
     out = []
     for kind in KINDS:
@@ -76,7 +79,7 @@ def channels_for(kind: str, r) -> List[str]:
         return [f"ch{i}" for i in range(r.randint(1, 3))]
     if kind == "binance":
         pool = ["trade:BTCUSDT", "trade:ETHUSDT", "user:spot", "user:cross", "user:isolated:BTCUSDT", "book:BTCUSDT",
-                "kline:ETHUSDT"]
+                "kline:ETHUSDT", "klineM:ETHUSDT", "klineH:BTCUSDT"]
         return r.sample(pool, r.randint(1, 4)) if r.random() < 0.8 else ["user:spot"]
     if kind == "bitstamp_public":
         return r.sample(["live_trades_btcusd", "live_trades_ethusd", "order_book_btcusd", "live_orders_btcusd"], r.randint(1, 3))
@@ -230,10 +233,12 @@ class BinanceAdapter(Adapter):
             p = Pair(parts[1][:-4], "USDT")
             self.ex.subscribe_to_trade_events(p, self.sink(ch))
             self.stream_of[ch] = parts[1].lower() + "@trade"
-        elif parts[0] == "kline":
+        elif parts[0] in KLINE_INTERVALS:
+            # stream names are case sensitive where it matters: 1m is a minute, 1M a month
             p = Pair(parts[1][:-4], "USDT")
-            self.ex.subscribe_to_bar_events(p, "1m", self.sink(ch))
-            self.stream_of[ch] = parts[1].lower() + "@kline_1m"
+            iv = KLINE_INTERVALS[parts[0]]
+            self.ex.subscribe_to_bar_events(p, iv, self.sink(ch))
+            self.stream_of[ch] = parts[1].lower() + "@kline_" + iv
         elif parts[0] == "book":
             p = Pair(parts[1][:-4], "USDT")
             self.ex.subscribe_to_order_book_events(p, self.sink(ch))
@@ -293,11 +298,12 @@ class BinanceAdapter(Adapter):
         if chan.startswith("trade:"):
             return {"stream": self.stream_of[chan], "data": {"e": "trade", "E": 1700000000000, "s": chan[6:], "t": uid,
                                                               "p": "1", "q": "1", "b": 1, "a": 2, "T": 1700000000000}}
-        if chan.startswith("kline:"):
+        if chan.split(":")[0] in KLINE_INTERVALS:
             # the message id travels in the volume field of the closed kline
-            return {"stream": self.stream_of[chan], "data": {"e": "kline", "E": 1700000000000, "s": chan[6:], "k": {
-                "t": 1700000000000, "T": 1700000059999, "s": chan[6:], "i": "1m", "o": "1", "c": "1", "h": "1", "l": "1",
-                "v": str(uid), "x": True}}}
+            sym = chan.split(":")[1]
+            return {"stream": self.stream_of[chan], "data": {"e": "kline", "E": 1700000000000, "s": sym, "k": {
+                "t": 1700000000000, "T": 1700000059999, "s": sym, "i": KLINE_INTERVALS[chan.split(":")[0]], "o": "1",
+                "c": "1", "h": "1", "l": "1", "v": str(uid), "x": True}}}
         if chan.startswith("book:"):
             return {"stream": self.stream_of[chan], "data": {"lastUpdateId": uid, "bids": [["1", "1"]], "asks": [["2", "1"]]}}
         key = self.current_key(ws, chan)
@@ -607,6 +613,16 @@ class Run:
             if not chans and end > m["t"] + 0.5 and not disturbed and m["t"] + 0.5 < T:
                 out.append(("message_lost", f"message {m['uid']} sent on {m['chan']} at {m['t']:.3f} (connection {m['cid']} "
                                             f"up until {end:.3f}) produced no event"))
+            # the client itself tore the connection down right after the message instead of delivering it, and nothing
+            # the server did since that connection was opened explains a client-side close
+            persistent = {"fail_listen_key", "sub_error", "delay", "fail_token", "fail_connect"}
+            closing = {"reconnect_request", "reconnect_client", "garbage", "close", "drop", "error_frame", "raise"}
+            if not chans and end <= m["t"] + 0.5 and c.close_cause == "client_close" and m["t"] + 0.5 < T \
+                    and not (persistent & set(sc["faults"])) \
+                    and not any(a in closing and c.opened_at - 1e-9 <= t <= end + 1e-9 for (t, a, cid) in self.action_log):
+                out.append(("message_lost", f"message {m['uid']} sent on {m['chan']} at {m['t']:.3f} produced no event: the "
+                                            f"client closed healthy connection {m['cid']} at {end:.3f} instead "
+                                            f"(actions on it: {[a for (t, a, cid) in self.action_log if cid == m['cid'] and a != 'msg']})"))
         for u, chans in by_uid.items():
             if u is not None and not any(m["uid"] == u for m in self.sent):
                 out.append(("unknown_event", f"event with id {u} on {chans} was never sent"))
